@@ -172,3 +172,174 @@ theorem Inv.step {c : Cfg} {o : Orders} {s s' : State} (inv : Inv c o s) (hbs : 
   case cfence hidle => exact inv.clientFence hidle
 
 end Babylon.Epoch
+
+namespace Babylon.Epoch
+open Babylon.Core Babylon.Core.MemView
+
+/-- memory of the initial state -/
+def initMem (c : Cfg) : Mem Loc := (State.init c).mem
+
+theorem initMem_hist (c : Cfg) (l : Loc) :
+    (initMem c).hist l =
+      if c.tls = true then
+        (match l with
+          | .ntid => (List.range (c.n0 + 1)).map (fun k => (⟨k, View.bot⟩ : Msg Loc))
+          | .fl i => if i < c.n0 then [⟨0, View.bot.bump .ntid c.n0⟩] else [⟨0, View.bot⟩]
+          | l => [⟨initVal c l, View.bot⟩])
+      else [⟨initVal c l, View.bot⟩] := by
+  unfold initMem State.init
+  cases c.tls <;> simp [Mem.init]
+  cases l <;> simp
+
+theorem initMem_tv (c : Cfg) (t : Nat) : (initMem c).tv t = TView.bot := by
+  unfold initMem State.init; cases c.tls <;> simp [Mem.init]
+theorem initMem_sc (c : Cfg) : (initMem c).sc = View.bot := by
+  unfold initMem State.init; cases c.tls <;> simp [Mem.init]
+
+theorem initMem_hist_simple (c : Cfg) (l : Loc) (h1 : l ≠ .ntid) (h2 : ∀ i, l ≠ .fl i) :
+    (initMem c).hist l = [⟨initVal c l, View.bot⟩] := by
+  rw [initMem_hist]
+  split
+  · cases l <;> simp_all
+  · rfl
+
+theorem initMem_len_pos (c : Cfg) (l : Loc) : 0 < (initMem c).len l := by
+  unfold Mem.len; rw [initMem_hist]
+  split
+  · cases l <;> simp
+    split <;> simp
+  · simp
+
+theorem initMem_ntid_len (c : Cfg) : (initMem c).len .ntid = if c.tls = true then c.n0 + 1 else 1 := by
+  unfold Mem.len; rw [initMem_hist]; split <;> simp
+
+theorem bot_bounded (c : Cfg) : View.Bounded (initMem c) (View.bot : View Loc) := fun l => by
+  simpa using initMem_len_pos c l
+
+theorem initMem_wf (c : Cfg) : (initMem c).WF := by
+  have hb := bot_bounded c
+  constructor
+  · exact initMem_len_pos c
+  · intro t; rw [initMem_tv]; exact hb
+  · intro t; rw [initMem_tv]; exact hb
+  · intro t; rw [initMem_tv]; exact hb
+  · rw [initMem_sc]; exact hb
+  · intro l ts mg hm
+    rw [initMem_hist] at hm
+    split at hm
+    · rename_i htls
+      cases l with
+      | ntid =>
+        simp only [List.getElem?_map] at hm
+        cases hk : (List.range (c.n0 + 1))[ts]? with
+        | none => rw [hk] at hm; cases hm
+        | some k => rw [hk] at hm; cases hm; exact hb
+      | fl i =>
+        simp only at hm
+        split at hm
+        · rcases ts with _ | ts
+          · simp at hm; subst hm
+            apply hb.bump
+            rw [initMem_ntid_len]; simp [htls]
+          · simp at hm
+        · rcases ts with _ | ts
+          · simp at hm; subst hm; exact hb
+          · simp at hm
+      | gver | nacc | tbl | slot _ | cl _ =>
+        rcases ts with _ | ts
+        · simp at hm; subst hm; exact hb
+        · simp at hm
+    · rcases ts with _ | ts
+      · simp at hm; subst hm; exact hb
+      · simp at hm
+  · intro t; rw [initMem_tv]; exact View.le_refl _
+  · intro t; rw [initMem_tv]; exact View.le_refl _
+
+theorem single_get {α : Type} {a b : α} {k : Nat} (h : [a][k]? = some b) : k = 0 ∧ b = a := by
+  rcases k with _ | k
+  · simp at h; exact ⟨rfl, h.symm⟩
+  · simp at h
+
+theorem Inv.init (c : Cfg) (o : Orders) : Inv c o (State.init c) := by
+  have hmem : (State.init c).mem = initMem c := rfl
+  have hpc : ∀ t, (State.init c).pc t = .idle := fun _ => rfl
+  have hfv : ∀ i, (State.init c).fv i = none := fun _ => rfl
+  have hlt : ∀ i, (State.init c).lt i = 0 := fun _ => rfl
+  have hav : ∀ i, (State.init c).av i = View.bot := fun _ => rfl
+  have hown : ∀ i, (State.init c).own i = if c.tls ∧ i < c.n0 then .free else .unalloc := fun _ => rfl
+  have hcounter0 : ∀ l, l ≠ .ntid → (∀ i, l ≠ .fl i) → initVal c l = 0 → CounterOK (State.init c) l := by
+    intro l h1 h2 h0 k msg hk
+    rw [hmem, initMem_hist_simple c l h1 h2] at hk
+    obtain ⟨rfl, rfl⟩ := single_get hk
+    exact h0
+  constructor
+  · exact initMem_wf c
+  · exact hcounter0 .gver (by simp) (by simp) rfl
+  · exact hcounter0 .nacc (by simp) (by simp) rfl
+  · intro k msg hk
+    rw [hmem, initMem_hist] at hk
+    split at hk
+    · simp only [List.getElem?_map] at hk
+      cases hr : (List.range (c.n0 + 1))[k]? with
+      | none => rw [hr] at hk; cases hk
+      | some j =>
+        rw [hr] at hk; cases hk
+        have hlt' : k < c.n0 + 1 := by have := getElem?_lt hr; simpa using this
+        have := List.getElem?_range hlt'
+        rw [hr] at this; cases this; rfl
+    · obtain ⟨rfl, rfl⟩ := single_get hk; rfl
+  · intro _; rw [hmem]; unfold Mem.len; rw [initMem_hist_simple c .nacc (by simp) (by simp)]; rfl
+  · intro k msg e hk h1 h2
+    rw [hmem, initMem_hist_simple c .gver (by simp) (by simp)] at hk
+    obtain ⟨rfl, _⟩ := single_get hk
+    omega
+  · intro a b ma mb _ ha hb
+    rw [hmem, initMem_hist_simple c .tbl (by simp) (by simp)] at ha hb
+    obtain ⟨_, rfl⟩ := single_get ha
+    obtain ⟨_, rfl⟩ := single_get hb
+    exact Nat.le_refl _
+  · intro e W h; cases h
+  · intro i V h; rw [hfv] at h; cases h
+  · intro i V e W h; rw [hfv] at h; cases h
+  · intro i h ho; rw [hown] at ho; split at ho <;> cases ho
+  · intro i h ho; rw [hown] at ho; split at ho <;> cases ho
+  · intro i ho
+    rw [hown] at ho
+    split at ho
+    · rename_i hc
+      refine ⟨⟨0, View.bot.bump .ntid c.n0⟩, ?_, ?_, ?_, hlt i, hfv i⟩
+      · rw [hmem, initMem_hist]; simp [hc.1, hc.2]
+      · rw [hav]; exact View.bot_le _
+      · have : c.cnt = .ntid := by simp [Cfg.cnt, hc.1]
+        rw [this]; simp; exact hc.2
+    · cases ho
+  · intro i
+    rw [hown, hmem]
+    cases htls : c.tls with
+    | false =>
+      have : c.cnt = .nacc := by simp [Cfg.cnt, htls]
+      rw [this]; unfold Mem.len; rw [initMem_hist_simple c .nacc (by simp) (by simp)]
+      simp
+    | true =>
+      have : c.cnt = .ntid := by simp [Cfg.cnt, htls]
+      rw [this, initMem_ntid_len]
+      simp [htls]
+  · intro i _; exact ⟨hlt i, hfv i, fun l => by rw [hav]; rfl⟩
+  · intro t i h; cases h
+  · intro i _ _
+    rw [hmem, hav]
+    have : (initMem c).hist (.slot i) = [⟨MAX, View.bot⟩] := initMem_hist_simple c (.slot i) (by simp) (by simp)
+    unfold Mem.len
+    rw [this]
+    exact ⟨⟨_, rfl, rfl⟩, rfl⟩
+  · intro i _ _; exact hlt i
+  · intro e h; cases h
+  · intro t; unfold PcOK; rw [hpc]; trivial
+
+/-- **The invariant holds in every reachable state** of the view-memory model, for every program,
+thread count, interleaving and choice of stale reads. -/
+theorem inv_reachable (c : Cfg) (o : Orders) (hbs : 0 < c.bs) (ho : o.Safe) :
+    ∀ s, Reachable (· = State.init c) (Step c o) s → Inv c o s :=
+  Reachable.invariant (Inv c o) (fun s h => by subst h; exact Inv.init c o) (fun _ _ inv h => inv.step hbs ho h)
+
+end Babylon.Epoch
